@@ -767,8 +767,9 @@ class MyPyAstVisitor:
 
         if isinstance(lvalue, mp_nodes.TupleExpr | mp_nodes.ListExpr):
             for lvalue_ in lvalue.items:
-                # Local variables that are unpacked in a constructor ("self.a, rest = ...") are no instance attributes
-                if not is_static and isinstance(lvalue_, mp_nodes.NameExpr):
+                # Local variables that are unpacked in a constructor ("self.a, *rest = ...") are no instance attributes
+                target = lvalue_.expr if isinstance(lvalue_, mp_nodes.StarExpr) else lvalue_
+                if not is_static and isinstance(target, mp_nodes.NameExpr):
                     continue
                 attributes.extend(self._parse_attributes(lvalue_, unanalyzed_type, is_static))
 
